@@ -487,8 +487,13 @@ func (r *run) runStream() {
 	closed := false
 	// C15: histories that end in an input-caused encode error (over-limit batch)
 	over := ""
+	overAt := -1
 	if prop == "C15" && t.Chance(core.Fault, 1, 120) {
 		over = overLimitKinds[t.Draw(core.Fault, len(overLimitKinds))]
+		overAt = hp.nBatches - 1
+		if t.Chance(core.Fault, 1, 2) {
+			overAt = t.Draw(core.Fault, hp.nBatches)
+		}
 	}
 	// C01-C03: now and then the largest batch the domain allows
 	boundaryAt := -1
@@ -504,7 +509,7 @@ func (r *run) runStream() {
 	for i := 0; i < hp.nBatches; i++ {
 		r.batch = i
 		var b *batchIn
-		if over != "" && i == hp.nBatches-1 {
+		if over != "" && i == overAt {
 			b = overLimitBatch(over)
 			r.fault("overlimit_" + over)
 			r.feats["overlimit"] = over
@@ -543,8 +548,9 @@ func (r *run) runStream() {
 		}
 		if err != nil {
 			if prop == "C15" {
+				// an input-caused encode error: the history goes on
 				r.fault("encode_error")
-				break // what a producer does after a failed encode is not stated; close it
+				continue
 			}
 			r.violate(prop, "encode-ok", fmt.Sprintf("in-domain batch %d (%s) was refused by the producer: %v", i, b.signal, err))
 			break
